@@ -73,9 +73,10 @@ def run_shard(sh):
     for qi, (kind, q) in enumerate(sp_['qs'][sh['lo']:sh['hi']]):
         sp = refql.Spelling(update_set=(qi % 2 == 0))
         text = refql.render(q, 'py', sp)
-        names = sp_['names'] if kind == 'named' else None
         Blist = sp_['Bs'] if kind == 'join' else [None]
-        for B in Blist:
+        # named slice: the same query text is run against both column orders of the header (a stale name -> position binding shows)
+        for names in ([sp_['names'], sp_['names'][::-1]] if kind == 'named' else [None]):
+          for B in Blist:
             for A in tabs[kind]:
                 exp, got, why = qcheck.run_case(res, q, A, B, a_names=names, diagnose=diagnose, text=text)
                 jscases.append((q, A, B, names, None))
